@@ -1480,6 +1480,11 @@ pub mod menu {
         Ids,
         Crypt,
         Page,
+        /// C05: non-stream dictionaries typed /Metadata (indirect, and nested inside other objects)
+        MetaDict,
+        /// C05: a document *loaded* from a file with an object stream (lopdf keeps the /ObjStm container in
+        /// memory) in which a member object was modified after loading
+        ObjStmLoaded,
     }
 
     impl DocKind {
@@ -1491,6 +1496,8 @@ pub mod menu {
                 DocKind::Ids => "ids",
                 DocKind::Crypt => "crypt_override",
                 DocKind::Page => "page",
+                DocKind::MetaDict => "metadata_typed_dictionaries",
+                DocKind::ObjStmLoaded => "loaded_from_object_stream_then_edited",
             }
         }
         pub fn from_name(s: &str) -> DocKind {
@@ -1500,10 +1507,23 @@ pub mod menu {
                 "stream_dict_strings" => DocKind::StreamDict,
                 "ids" => DocKind::Ids,
                 "crypt_override" => DocKind::Crypt,
+                "metadata_typed_dictionaries" => DocKind::MetaDict,
+                "loaded_from_object_stream_then_edited" => DocKind::ObjStmLoaded,
                 _ => DocKind::Page,
             }
         }
         pub const ALL: [DocKind; 6] = [DocKind::Strings, DocKind::Streams, DocKind::StreamDict, DocKind::Ids, DocKind::Crypt, DocKind::Page];
+        /// the C05 menu: `ALL` plus the two documents only the lopdf-against-lopdf protocol needs
+        pub const C05_ALL: [DocKind; 8] = [
+            DocKind::Strings,
+            DocKind::Streams,
+            DocKind::StreamDict,
+            DocKind::Ids,
+            DocKind::Crypt,
+            DocKind::Page,
+            DocKind::MetaDict,
+            DocKind::ObjStmLoaded,
+        ];
     }
 
     fn s(len: usize, salt: u32, hex: bool) -> Object {
@@ -1606,6 +1626,57 @@ pub mod menu {
                 objs.push(((5, 0), mk(Object::Array(vec![Object::Name(b"Crypt".to_vec())]), Some(parms(Some(&named))), 134)));
                 objs.push(((6, 0), Object::Stream(Stream::new(Dictionary::new(), pattern(40, 135)))));
             }
+            DocKind::MetaDict => {
+                let meta = |salt: u32| {
+                    Object::Dictionary(dict(vec![
+                        ("Type", Object::Name(b"Metadata".to_vec())),
+                        ("S", s(20, salt, false)),
+                        ("Short", s(5, salt + 1, true)),
+                        ("A", Object::Array(vec![s(17, salt + 2, true), Object::Integer(1)])),
+                        ("D", Object::Dictionary(dict(vec![("T", s(33, salt + 3, false))]))),
+                    ]))
+                };
+                objs.push(((1, 0), Object::Dictionary(dict(vec![("Type", Object::Name(b"Catalog".to_vec())), ("Meta", Object::Reference((2, 0)))]))));
+                // an indirect non-stream dictionary typed /Metadata
+                objs.push(((2, 0), meta(140)));
+                // the same kind of dictionary nested directly inside another dictionary / inside an array
+                objs.push(((3, 0), Object::Dictionary(dict(vec![("K", meta(150)), ("Plain", s(20, 155, false))]))));
+                objs.push(((4, 0), Object::Array(vec![meta(160), s(16, 165, true)])));
+                // and a real metadata stream next to them
+                objs.push((
+                    (5, 0),
+                    Object::Stream(Stream::new(
+                        dict(vec![("Type", Object::Name(b"Metadata".to_vec())), ("Subtype", Object::Name(b"XML".to_vec()))]),
+                        b"<x:xmpmeta xmlns:x='adobe:ns:meta/'>0123456789</x:xmpmeta>".to_vec(),
+                    )),
+                ));
+            }
+            DocKind::ObjStmLoaded => {
+                // written by the reference writer with one object stream, loaded by lopdf (which keeps the
+                // /ObjStm container and the cross-reference stream as objects), then edited
+                let src = build_doc(DocKind::Page, cfg, id0, false);
+                let mut objects = src.objects.clone();
+                objects.insert((7, 0), Object::Dictionary(dict(vec![("Note", s(24, 170, false)), ("Arr", Object::Array(vec![s(16, 171, true)]))])));
+                let spec = crate::refpdf::FileSpec {
+                    version: "1.6".into(),
+                    mark: vec![0xe2, 0xe3, 0xcf, 0xd3],
+                    style: crate::refpdf::Style::Stream,
+                    sections: vec![crate::refpdf::Section { objects, trailer: src.trailer.clone(), objstm: Some(1), omit_xref: vec![], extra_members: vec![] }],
+                    helper_base: None,
+                };
+                let (bytes, _) = crate::refpdf::write(&spec, &mut crate::choose::Chooser::new());
+                let mut loaded = crate::util::load(&bytes).expect("object-stream start document loads");
+                // edit members of the object stream after loading: the live objects now differ from the
+                // copies inside the container
+                if let Some(Object::Dictionary(d)) = loaded.objects.get_mut(&(6, 0)) {
+                    d.set("Title", Object::string_literal("edited after loading - 28 bytes"));
+                    d.set("Keywords", Object::string_literal("added"));
+                }
+                if let Some(Object::Dictionary(d)) = loaded.objects.get_mut(&(7, 0)) {
+                    d.set("Note", Object::string_literal("x"));
+                }
+                return loaded;
+            }
             DocKind::Page => {
                 objs.push(((1, 0), Object::Dictionary(dict(vec![("Type", Object::Name(b"Catalog".to_vec())), ("Pages", Object::Reference((2, 0)))]))));
                 objs.push((
@@ -1676,6 +1747,8 @@ pub mod menu {
     pub enum Leaf {
         Str,
         StrInStreamDict,
+        /// string inside a non-stream dictionary whose /Type is /Metadata
+        StrInMetadataDict,
         Body,
     }
 
@@ -1683,34 +1756,47 @@ pub mod menu {
     /// `f(path, leaf kind, nominal method, plaintext bytes, other bytes)` for every string / stream body.
     /// Returns false if the two objects do not have the same shape.
     pub fn zip_leaves(cfg: &Config, plain: &Object, other: &Object, path: &str, f: &mut dyn FnMut(&str, Leaf, F, &[u8], &[u8])) -> bool {
-        zip_inner(cfg, plain, other, path, false, f)
+        zip_inner(cfg, plain, other, path, 0, f)
     }
 
-    fn zip_inner(cfg: &Config, plain: &Object, other: &Object, path: &str, in_sd: bool, f: &mut dyn FnMut(&str, Leaf, F, &[u8], &[u8])) -> bool {
+    /// `ctx`: 0 ordinary, 1 inside a stream dictionary, 2 inside a non-stream dictionary typed /Metadata
+    fn zip_inner(cfg: &Config, plain: &Object, other: &Object, path: &str, ctx: u8, f: &mut dyn FnMut(&str, Leaf, F, &[u8], &[u8])) -> bool {
         match (plain, other) {
             (Object::String(a, _), Object::String(b, _)) => {
                 let m = if cfg.has_filters() { cfg.strf } else { F::Rc4 };
-                f(path, if in_sd { Leaf::StrInStreamDict } else { Leaf::Str }, m, a, b);
+                let leaf = match ctx {
+                    1 => Leaf::StrInStreamDict,
+                    2 => Leaf::StrInMetadataDict,
+                    _ => Leaf::Str,
+                };
+                f(path, leaf, m, a, b);
                 true
             }
             (Object::Array(a), Object::Array(b)) => {
-                a.len() == b.len() && a.iter().zip(b.iter()).enumerate().all(|(i, (x, y))| zip_inner(cfg, x, y, &format!("{}[{}]", path, i), in_sd, f))
+                a.len() == b.len() && a.iter().zip(b.iter()).enumerate().all(|(i, (x, y))| zip_inner(cfg, x, y, &format!("{}[{}]", path, i), ctx, f))
             }
-            (Object::Dictionary(a), Object::Dictionary(b)) => zip_dict(cfg, a, b, path, in_sd, f),
+            (Object::Dictionary(a), Object::Dictionary(b)) => {
+                let meta = ctx == 0 && matches!(a.get(b"Type"), Ok(Object::Name(n)) if n == b"Metadata");
+                zip_dict(cfg, a, b, path, if meta { 2 } else { ctx }, f)
+            }
             (Object::Stream(a), Object::Stream(b)) => {
+                // cross-reference streams and the strings of their dictionaries are never encrypted (7.6.2)
+                if matches!(a.dict.get(b"Type"), Ok(Object::Name(n)) if n == b"XRef") {
+                    return true;
+                }
                 let m = stream_method(cfg, &a.dict);
                 f(&format!("{}.body", path), Leaf::Body, m, &a.content, &b.content);
-                zip_dict(cfg, &a.dict, &b.dict, &format!("{}.dict", path), true, f)
+                zip_dict(cfg, &a.dict, &b.dict, &format!("{}.dict", path), 1, f)
             }
             (a, b) => std::mem::discriminant(a) == std::mem::discriminant(b),
         }
     }
 
-    fn zip_dict(cfg: &Config, a: &Dictionary, b: &Dictionary, path: &str, in_sd: bool, f: &mut dyn FnMut(&str, Leaf, F, &[u8], &[u8])) -> bool {
+    fn zip_dict(cfg: &Config, a: &Dictionary, b: &Dictionary, path: &str, ctx: u8, f: &mut dyn FnMut(&str, Leaf, F, &[u8], &[u8])) -> bool {
         for (k, x) in a.iter() {
             match b.get(k) {
                 Ok(y) => {
-                    if !zip_inner(cfg, x, y, &format!("{}/{}", path, String::from_utf8_lossy(k)), in_sd, f) {
+                    if !zip_inner(cfg, x, y, &format!("{}/{}", path, String::from_utf8_lossy(k)), ctx, f) {
                         return false;
                     }
                 }
@@ -1744,6 +1830,23 @@ pub mod menu {
             return F::Identity;
         }
         cfg.stm
+    }
+
+    /// Password pairs for revisions 5-6 whose SASLprep/UTF-8 form is longer than 127 bytes and has a 2-, 3-
+    /// or 4-byte character across byte offset 127: Algorithm 2.A cuts the *byte string* at 127 bytes.
+    pub fn straddling_pairs() -> Vec<(&'static str, String, String)> {
+        let mk = |ascii: usize, fill: char, ch: char| -> String {
+            let mut p: String = std::iter::repeat(fill).take(ascii).collect();
+            p.push(ch);
+            p.push_str("tail");
+            assert!(p.len() > 127 && !p.is_char_boundary(127));
+            p
+        };
+        vec![
+            ("cut127_2byte", mk(126, 'a', '\u{e9}'), mk(126, 'B', '\u{f8}')),
+            ("cut127_3byte", mk(125, 'c', '\u{20ac}'), mk(126, 'D', '\u{4e2d}')),
+            ("cut127_4byte", mk(124, 'e', '\u{20000}'), mk(126, 'F', '\u{10330}')),
+        ]
     }
 
     /// Password pairs (user, owner) of DESIGN C05.
